@@ -122,7 +122,7 @@ Definition ex_doc : doc :=
 Example C07_forward_references_load :
   match load_doc [] ex_doc with
   | Done s => st_errs s = [] /\
-              st_nodes s = [(203, 23, []); (202, 22, [BNode 203; BInst 100 []]); (201, 21, [BNode 202])]%N /\
+              st_nodes s = [(201, 21, [BNode 202]); (202, 22, [BNode 203; BInst 100 []]); (203, 23, [])]%N /\
               st_scenes s = [(300, 30, [(301, 31, [BNode 201; BInst 100 [120]])])]%N /\
               st_default s = Some 300%N /\
               st_items s = [(LEffects, (110, 11, [])); (LMaterials, (120, 12, [110])); (LGeometry, (100, 10, []))]%N
